@@ -41,6 +41,8 @@ SPOPTS = {
     # SP whose binding preferences for that service start with another binding
     'bare-acs': {'acs': [ACS_POST], 'top': {'preferred_binding': {'assertion_consumer_service': [REDIR, POST]}}},
     # the other spellings of an endpoint the metadata generator understands: (location, binding, index) and a dict
+    # a non-zero clock-skew allowance: it widens what is accepted, it is not added to what the application reads
+    'slack-180': {'top': {'accepted_time_diff': 180}},
     'acs-3tuples': {'acs': [(ACS_POST, POST, 0), (ACS_REDIRECT, REDIR, 1), (ACS_SOAP, SOAP, 2)]},
     'acs-dicts': {'acs': [{'location': ACS_POST, 'binding': POST, 'index': 0}, {'location': ACS_REDIRECT, 'binding': REDIR, 'index': 1},
                           {'location': ACS_SOAP, 'binding': SOAP, 'index': 2}]},
@@ -134,15 +136,19 @@ def cells(thorough):
             out.append(dict(base, values=vals, count=count, nf=nf, sr=sr, sa=sa, enc=enc, wants=(sr, sa, False), extra_attr=True,
                             binding=binding))
     out.append(dict(base, values=(), count=0))
+    # non-initial state of the IdP: it has just verified a signed AuthnRequest of the SP (a look-up of the SP's
+    # signing certificate) before it encrypts for the SP
+    for (sr, sa, enc), binding in itertools.product(((True, False, True), (False, True, True), (True, True, True), (False, False, True), (True, False, False)), (POST, REDIR)):
+        out.append(dict(base, sr=sr, sa=sa, enc=enc, wants=(False, False, False), binding=binding, after_signed_request=True))
     # A2. SP configuration variants: destination pattern option, bare-location endpoints with binding preferences
-    for spopt, (sr, sa, enc), binding in itertools.product(('dest-regex-mid', 'bare-acs', 'acs-3tuples', 'acs-dicts', 'acs-dicts-no-index'),
+    for spopt, (sr, sa, enc), binding in itertools.product(('dest-regex-mid', 'bare-acs', 'acs-3tuples', 'acs-dicts', 'acs-dicts-no-index', 'slack-180'),
                                                            ((True, False, False), (False, True, True), (True, True, False)), (POST, REDIR)):
         if spopt == 'bare-acs' and binding != POST:
             continue
         out.append(dict(base, spopt=spopt, sr=sr, sa=sa, enc=enc, wants=(sr, sa, False), binding=binding))
     # B2. special identities: values carried as a NameID child (eduPersonTargetedID), two identity keys that the
     #     name mapping sends to the same attribute (spellings differing in case)
-    for special, (sr, sa, enc), binding in itertools.product(('eptid', 'alias-case', 'eptid+alias-case'), ((True, False, False), (False, True, True), (True, True, False)),
+    for special, (sr, sa, enc), binding in itertools.product(('eptid', 'alias-case', 'eptid+alias-case', 'eidas'), ((True, False, False), (False, True, True), (True, True, False)),
                                                              (POST, REDIR, SOAP) if thorough else (POST,)):
         if binding == SOAP and sr and enc:
             continue
@@ -229,6 +235,10 @@ def evaluate(c):
     sp_ = c.get('special') or ''
     if 'eptid' in sp_:
         identity['eduPersonTargetedID'] = ['tid-one', 'tid-two']
+    if 'eidas' in sp_:
+        # attributes whose wire name (a URI) has upper-case letters
+        identity['PersonIdentifier'] = ['ES/AT/02635542Y']
+        identity['FamilyName'] = ['Garc\u00eda']
     if 'alias-case' in sp_:
         identity['sn'] = ['Smith']
         identity['SN'] = ['Smythe']
@@ -249,6 +259,13 @@ def evaluate(c):
         from saml2_tophat import time_util
         kw['session_not_on_or_after'] = forge.ts(env.BASE + c['snooa'])
     b = c['binding']
+    if c.get('after_signed_request'):
+        try:
+            _rid, req = sp.create_authn_request(world.SSO_A + '/post', binding=POST, sign=True)
+            import base64 as _b64
+            idp.parse_authn_request(_b64.b64encode(str(req).encode('utf-8')).decode(), POST)
+        except Exception as e:
+            return {'ok': False, 'why': 'idp-refused-signed-request-of-the-sp:%s' % type(e).__name__}
     try:
         resp = idp.create_authn_response(identity, 'req1', ACS[b], SP_X, name_id=nid, authn=authn, **kw)
     except Exception as e:
